@@ -257,7 +257,7 @@ func runC05(c *core.Ctx) {
 	}
 	reps := c.Pick(25, 300)
 	for f := 0; f < 4; f++ {
-		for v := 0; v < 12; v++ {
+		for v := 0; v < 32; v++ {
 			for r := 0; r < reps; r++ {
 				if !mine() {
 					continue
@@ -277,7 +277,7 @@ func runC05(c *core.Ctx) {
 		m := c05GenMetadata(c, so.SPMeta)
 		q := genReq(m)
 		for d := c.Rng.Intn(3); d > 0; d-- {
-			deviate(&q, c.Rng.Intn(4), c.Rng.Intn(12))
+			deviate(&q, c.Rng.Intn(4), c.Rng.Intn(32))
 		}
 		c05Run(c, m, q)
 		// the byte-identical request again, after the registry changed (other endpoints, or the SP deregistered)
